@@ -5,5 +5,6 @@ CONSTANTS
   SepChoice = "none"
   EmitMin = 3
   WithFinal = FALSE
+  AssertRef = FALSE
 INVARIANTS RefAgrees
 CHECK_DEADLOCK FALSE
